@@ -1,6 +1,7 @@
 package checks
 
 import (
+	"encoding/json"
 	"fmt"
 	"os"
 
@@ -39,6 +40,56 @@ func init() {
 			fmt.Println("  FAIL", f.Key, "::", f.What)
 		}
 		fmt.Println("done, fails:", len(fs))
+		c.Cov["explanation"] = "debug"
+	}})
+}
+
+// dbgpath: replay the path of a clustermc replay file step by step, printing the copies of every
+// key and the routing of its partition after each step (DBG_REPLAY=<file>).
+func init() {
+	core.Register(&core.Check{ID: "dbgpath", Level: "other", Run: func(c *core.Ctx) {
+		b, err := os.ReadFile(os.Getenv("DBG_REPLAY"))
+		if err != nil {
+			panic(err)
+		}
+		var f struct {
+			Replay struct {
+				Family string         `json:"family"`
+				Tier   string         `json:"tier"`
+				Spec   int            `json:"spec"`
+				Path   []clustermc.Ev `json:"path"`
+			} `json:"replay"`
+		}
+		if err := json.Unmarshal(b, &f); err != nil {
+			panic(err)
+		}
+		sp := clustermc.Specs[f.Replay.Family](f.Replay.Tier)[f.Replay.Spec]
+		s := sp.New()
+		dump := func() {
+			sys, ok := s.(*c03Sys)
+			if !ok {
+				return
+			}
+			for _, m := range sys.Cl.Live() {
+				t := m.DB.VerifRT().VerifTable()
+				p := sys.Cl.PartID("d", sys.Keys[0])
+				fmt.Printf("    %s boot=%v part%d owners=%s backups=%s pending=%d\n", m.Name, m.DB.VerifRT().IsBootstrapped(), p, namesOf(t[p].Owners), namesOf(t[p].Backups), sys.Cl.Pending(m))
+			}
+			for _, k := range sys.Keys[:1] {
+				for _, cp := range sys.Cl.Copies("d", k) {
+					fmt.Printf("    copy %s: %s %s part=%d val=%q\n", k, cp.Member, cp.Kind, cp.PartID, cp.Value)
+				}
+			}
+		}
+		fmt.Println("spec:", sp.Name)
+		dump()
+		for _, e := range f.Replay.Path {
+			fs := sp.Apply(s, e)
+			fmt.Println("==", sp.Describe(e), "->", fs)
+			dump()
+		}
+		fmt.Println("== CHECK:", sp.Check(s))
+		dump()
 		c.Cov["explanation"] = "debug"
 	}})
 }
